@@ -20,6 +20,8 @@ def gen_cases(rng, n):
         cases.append(("scripted", S.scripted(rng), G.gen_stdin(rng)))
     for _ in range(max(10, n // 8)):
         cases.append(("branch", S.branch(rng), ""))
+    for _ in range(max(12, n // 10)):
+        cases.append(("bigarith", S.bigarith(rng), ""))
     for _ in range(n):
         cmds = G.gen_program(rng)
         noisy = rng.random() < 0.15
@@ -154,7 +156,7 @@ def run(prop, tier, seed):
     distinct = set()
     propfail, corr = [], []
     for (tag, prog, stdin), a, b, c in zip(cases, l0, l1, l2):
-        hist[tag if tag in ("random", "scripted", "branch") else "template"] += 1
+        hist[tag if tag in ("random", "scripted", "branch", "bigarith") else "template"] += 1
         nsteps = a.count(";;")
         hist["steps"] += nsteps
         end = a.rsplit("END:", 1)[-1] if "END:" in a else "?"
